@@ -243,6 +243,12 @@ func IntProps(propContainer map[string]object.PanObject) map[string]object.PanOb
 				// floordiv
 				res := self.Value / other.Value
 
+				// quotient truncated to 0 must be floored to -1 if signs differ
+				if res == 0 && self.Value%other.Value != 0 && (self.Value < 0) != (other.Value < 0) {
+					// NOTE: Int's descendants also call this
+					return object.NewInheritedInt(args[0].Proto(), -1)
+				}
+
 				// HACK: convert round to floor
 				if res < 0 && self.Value%other.Value != 0 {
 					// NOTE: Int's descendants also call this
